@@ -187,7 +187,7 @@ func init() {
 		raw := *structField((*p).(structure), ut, "RawQuery")
 		rs, ok := raw.(string)
 		if !ok {
-			panic(engineErr{"UNSUPPORTED symbolic URL.RawQuery"})
+			return fallThrough // symbolic bytes: run net/url's own parser
 		}
 		vals, _ := neturl.ParseQuery(rs)
 		m := makeMap(types.Typ[types.String])
@@ -200,5 +200,57 @@ func init() {
 			m.insert(fr, k, valStrSlice(vals[k]))
 		}
 		return m
+	}
+}
+
+// encoding/json decoding of a request body: the harness declares the decoded
+// value (zzverif.SetJSONBody); Decode into *map[string]interface{} behaves as
+// encoding/json does for that value: objects and null decode, an empty body
+// and every other kind of value are errors. JSON text parsing itself is
+// outside every claim.
+type jsonBody struct {
+	v       value
+	present bool
+}
+
+func init() {
+	externals[zzPkg+"SetJSONBody"] = func(fr *frame, a []value) value {
+		fr.i.side["jsonbody"] = &jsonBody{v: a[0], present: a[1].(bool)}
+		return nil
+	}
+	externals["encoding/json.NewDecoder"] = func(fr *frame, a []value) value {
+		var cell value = zero(fr.i.namedType("encoding/json", "Decoder"))
+		return &cell
+	}
+	externals["(*encoding/json.Decoder).Decode"] = func(fr *frame, a []value) value {
+		i := fr.i
+		jb, _ := i.side["jsonbody"].(*jsonBody)
+		if jb == nil {
+			panic(engineErr{"json.Decoder.Decode without zzverif.SetJSONBody"})
+		}
+		target, ok := a[1].(iface)
+		if !ok {
+			panic(engineErr{"json Decode: target is not an interface value"})
+		}
+		pt, ok := target.t.(*types.Pointer)
+		if !ok {
+			panic(engineErr{"UNSUPPORTED json Decode target " + target.t.String()})
+		}
+		if _, isMap := pt.Elem().Underlying().(*types.Map); !isMap {
+			panic(engineErr{"UNSUPPORTED json Decode target " + target.t.String()})
+		}
+		if !jb.present {
+			return i.newError("EOF", nil)
+		}
+		body, _ := jb.v.(iface)
+		if body.t == nil { // JSON null
+			*(target.v.(*value)) = (*omap)(nil)
+			return iface{}
+		}
+		if _, isMap := body.t.Underlying().(*types.Map); !isMap {
+			return i.newError("json: cannot unmarshal value into Go value of type map[string]interface {}", nil)
+		}
+		*(target.v.(*value)) = body.v
+		return iface{}
 	}
 }
